@@ -24,14 +24,20 @@ CONFIGS = {
     'K2': ['--no-default-features'],
     'K3': ['--features', 'serde,serde_repr'],
     'K4': ['--no-default-features', '--features', 'serde,serde_repr'],
+    # the same crate as a release profile sees it: `debug_assert!` and `cfg!(debug_assertions)` code is gone
+    'K1r': [],
+    'K2r': ['--no-default-features'],
 }
 CONFIG_DESC = {
     'K1': 'default features (std)',
     'K2': '--no-default-features (no_std)',
     'K3': '--features serde,serde_repr (std)',
     'K4': '--no-default-features --features serde,serde_repr',
+    'K1r': 'default features, debug assertions off (release profile)',
+    'K2r': '--no-default-features, debug assertions off (release profile)',
 }
 RUSTFLAGS = '-Zmir-opt-level=0'
+EXTRA_RUSTFLAGS = {'K1r': ' -Cdebug-assertions=off', 'K2r': ' -Cdebug-assertions=off'}
 FORMAT = '3'
 
 
@@ -93,7 +99,7 @@ def _extract(cfg, snap, outdir, sysroot):
         'CARGO_NET_OFFLINE': 'true',
         'RUSTC_WORKSPACE_WRAPPER': DRIVER,
         'LD_LIBRARY_PATH': sysroot + '/lib' + (':' + env['LD_LIBRARY_PATH'] if env.get('LD_LIBRARY_PATH') else ''),
-        'RUSTFLAGS': RUSTFLAGS,
+        'RUSTFLAGS': RUSTFLAGS + EXTRA_RUSTFLAGS.get(cfg, ''),
         'CARGO_TARGET_DIR': tdir,
         'HMSA_FACTS_OUT': out,
     })
